@@ -95,7 +95,7 @@ def run():
                 if not need <= g.crash_points:         # vacuity guard: Crash taken at every step boundary
                     raise MachineryError("%s: no Crash explored at %s" % (j["cfg"], sorted(need - g.crash_points)))
                 if j["graph"] == "2":
-                    limit = 25000 if c.thorough else 4000
+                    limit = None if c.thorough else 4000
                     nwalk = 3000 if c.thorough else 300
                 else:
                     limit = None if (c.thorough or j["graph"] != "1-n3") else 5000
